@@ -6,7 +6,7 @@ from lib import Case, fmt_list
 
 PROP = "C18"
 DRIVER = "drv-c18"
-PROOF_MODULES = ["TetlProofs.C18.Props", "TetlProofs.C18.PropsCtype", "TetlProofs.C18.PropsDiv"]
+PROOF_MODULES = ["TetlProofs.C18.Props", "TetlProofs.C18.PropsCtype", "TetlProofs.C18.PropsDiv", "TetlProofs.C18.PropsGen"]
 HARNESS = "harness/c18.cpp"
 SOURCES = ["include/etl/_strings/cstr.hpp", "include/etl/_cstring", "include/etl/_cwchar", "include/etl/_cctype",
            "include/etl/_cwctype", "include/etl/_cstdlib/div.hpp", "include/etl/_cstdlib/labs.hpp",
@@ -428,3 +428,22 @@ CORRESPONDENCE_ONLY = []
 # observed by the differential run only, outside every model
 UNPROVED_OBSERVED = ["strrchr/wcsrchr: the `str == nullptr` early return (a pointer is an index into an allocation in the model)",
                      "the null-pointer TETL_PRECONDITIONs of strcpy/strncpy/memmove/strchr (contract checks are off; see C05)"]
+
+
+# ---- tie T for <cctype>: the 14 functions are regenerated from the clang AST on every run (gen/translate.py);
+# TetlProofs/C18/PropsGen.lean is re-checked against the regenerated Tetl/C18/Gen.lean, and the driver runs the generated
+# functions next to the hand model on every `ctype` line (a disagreement prints `...!gen=...`).
+def regenerate(ctx):
+    import os
+    import sys
+    import lib
+    sys.path.insert(0, os.path.join(lib.VERIF, "gen"))
+    import translate
+    out = os.path.join(lib.LEAN, "Tetl", "C18", "Gen.lean")
+    info = translate.translate(lib.REPO, out, translate.CCTYPE_JOBS, "#include <etl/cctype.hpp>\n", "Tetl.C18.Gen",
+                               "include/etl/_cctype")
+    res = {"generated_file": os.path.relpath(out, lib.VERIF), "hash": lib.file_hash(out), "changed": info["changed"],
+           "functions": info["functions"], "translator": info["translator"]}
+    if info["errors"]:
+        res["error"] = "; ".join(info["errors"])
+    return res
